@@ -182,3 +182,52 @@ def to_serial_from_serial(dels):
         sym.check("rt:json_fixed_point", json.loads(h3.to_json()) == json.loads(j1))
     else:
         sym.check("rt:json_fixed_point", True)
+
+
+@lemma("C02", params=lambda: [(i,) for i in range(7)],
+       bounds="the 7 builder program templates followed by a mutation tail of 0..1 (quick) / 0..2 (thorough) steps chosen by the solver (delete a leaf "
+              "operation node together with nothing else, add a node reusing a freed index, add a metadata entry, add an order link between siblings), "
+              "then Hugr.load_json(h.to_json()): same JSON value on re-serialisation and same observable structure up to the written order",
+       outside="longer mutation histories; attribute-level losses are C05's subject", opts={"max_paths": 100000, "timeout_s": 1500})
+def json_roundtrip_of_programs(k):
+    import json
+    from vrf.harness import programs
+    from vrf.harness.common import structure
+    h = programs.MODULES[k]().hugr
+    leaves = [n for n in h if not h.children(n) and n != h.root and isinstance(h[n].op, ops.Custom)]
+    for s in range(sym.concretize(sym.int("mutations", 0, P(1, 2)))):
+        kind = sym.concretize(sym.int(f"mut{s}.kind", 0, 3))
+        if kind == 0 and leaves:
+            victim = leaves.pop(sym.concretize(sym.int(f"mut{s}.victim", 0, len(leaves) - 1)))
+            h.delete_node(victim)
+        elif kind == 1:
+            par = h[h.children(h.root)[-1]].parent if not h.children(h.children(h.root)[-1]) else h.children(h.root)[-1]
+            h.add_node(_op(9, 0, 0), par, num_outs=0, metadata={"added": s})
+        elif kind == 2:
+            tgt = list(h)[sym.concretize(sym.int(f"mut{s}.node", 0, min(3, len(h) - 1)))]
+            h[tgt].metadata[f"m{s}"] = {"v": [s, None, "ü"]}
+        elif leaves and len(leaves) >= 1:
+            a = leaves[0]
+            sibs = [c for c in h.children(h[a].parent) if c != a and isinstance(h[c].op, ops.Custom)]
+            if sibs:
+                h.add_order_link(a, sibs[0])
+    j1 = h.to_json()
+    h2 = Hugr.load_json(j1)
+    j2 = h2.to_json()
+    sym.check("reserialises_to_same_json_value", json.loads(j1) == json.loads(j2))
+    live = [n.idx for n in h]
+    order = written_order(h, live)
+    rank = {idx: r for r, idx in enumerate(order)}
+    ok = len(h2) == len(live)
+    if ok:
+        for idx in live:
+            d, d2 = h[Node(idx)], h2[Node(rank[idx])]
+            ok = ok and type(d2.op) is type(d.op) or (isinstance(d.op, ops.AsExtOp) and isinstance(d2.op, ops.Custom))
+            ok = ok and dict(d2.metadata) == dict(d.metadata)
+            ok = ok and [c.idx for c in h2.children(Node(rank[idx]))] == [rank[c.idx] for c in h.children(Node(idx))]
+    sym.check("same_ops_hierarchy_child_order_metadata", ok)
+    l1 = sorted((rank[s.node.idx], s.offset, rank[t.node.idx], t.offset) for s, t in h.links())
+    l2 = sorted((s.node.idx, s.offset, t.node.idx, t.offset) for s, t in h2.links())
+    sym.check("same_multiset_of_links_including_order_links", l1 == l2)
+    j3 = Hugr.load_json(j2).to_json()
+    sym.check("fixed_point", json.loads(j3) == json.loads(j2))
